@@ -71,8 +71,57 @@ def acc_of(pendulum, x):
     return (type(x).__name__, repr(x))
 
 
+def _use(pendulum, x):
+    """Ordinary read-only operations on a value (every one returns a new object or a plain result): the value they were
+    applied to is the same value afterwards, and so are its copies."""
+    one_hour = dt_.timedelta(hours=1)
+    ops = [lambda: str(x), lambda: repr(x), lambda: hash(x), lambda: x == x]
+    if isinstance(x, dt_.timedelta):
+        ops += [lambda: -x, lambda: abs(x), lambda: x.in_words(), lambda: x.in_words(locale="fr"), lambda: x.total_seconds(), lambda: x.in_weeks(),
+                lambda: x.in_days(), lambda: x.in_hours(), lambda: x.in_seconds(), lambda: x * 2, lambda: 3 * x, lambda: x // 2, lambda: x / 2,
+                lambda: x + one_hour, lambda: one_hour + x, lambda: x - one_hour, lambda: one_hour - x, lambda: x % one_hour,
+                lambda: x.as_timedelta(), lambda: (x.weeks, x.remaining_days, x.hours, x.minutes, x.remaining_seconds),
+                lambda: pendulum.DateTime(2021, 3, 14, 12, tzinfo=pendulum.UTC) + x, lambda: pendulum.DateTime(2021, 3, 14, 12, tzinfo=pendulum.UTC) - x,
+                lambda: pendulum.format_diff(x), lambda: x.as_duration(), lambda: x.in_months(), lambda: x.in_years()]
+    elif isinstance(x, dt_.datetime):
+        ops += [lambda: x.add(days=1), lambda: x.add(hours=1), lambda: x.subtract(months=1), lambda: x + one_hour, lambda: x - one_hour,
+                lambda: x.start_of("day"), lambda: x.end_of("month"), lambda: x.set(minute=1), lambda: x.on(2001, 2, 3),
+                lambda: x.at(4, 5, 6), lambda: x.in_timezone("Asia/Tokyo"), lambda: x.format("LLLL Z z"), lambda: x.day_of_year,
+                lambda: x.diff(x), lambda: x.timestamp(), lambda: x.isoformat(), lambda: x.date(),
+                lambda: x.time(), lambda: x.replace(year=2001), lambda: x.naive(), lambda: x.utcoffset()]
+    elif isinstance(x, dt_.date):
+        ops += [lambda: x.add(days=1), lambda: x.subtract(months=1), lambda: x.start_of("month"), lambda: x.end_of("year"), lambda: x.day_of_year,
+                lambda: x.next(), lambda: x.last_of("month"), lambda: x.diff(x), lambda: x.format("LL"), lambda: x.replace(day=1)]
+    elif isinstance(x, dt_.time):
+        ops += [lambda: x.add(hours=1), lambda: x.subtract(minutes=1), lambda: x.diff(x), lambda: x.format("LTS"), lambda: x.replace(minute=1),
+                lambda: x.isoformat(), lambda: x.utcoffset()]
+    elif isinstance(x, dt_.tzinfo):
+        n = dt_.datetime(2021, 3, 28, 2, 30)
+        ops += [lambda: x.utcoffset(n.replace(tzinfo=x)), lambda: x.convert(n), lambda: x.datetime(2021, 10, 31, 2, 30), lambda: x.tzname(n.replace(tzinfo=x)),
+                lambda: x.fromutc(n.replace(tzinfo=x)), lambda: x.name]
+    for op in ops:
+        try:
+            op()
+        except Exception:  # noqa: BLE001
+            pass
+
+
 def check_value(acc, pendulum, label, x, case, eq=True, depth2=False):
     want = acc_of(pendulum, x)
+    _check_copies(acc, pendulum, label, x, case, want, eq, depth2, "")
+    if not depth2:
+        # the same value after it has been USED: it still reads the same, and its copies still reproduce it
+        _use(pendulum, x)
+        acc.c["evaluations"] += 1
+        after = acc_of(pendulum, x)
+        if after != want:
+            diff = [i for i, (a, b) in enumerate(zip(after, want)) if a != b]
+            acc.mismatch(label, "changed-by-use/accessors", dict(case, route="use"), {"got": after, "differs_at": diff}, want)
+        else:
+            _check_copies(acc, pendulum, label, x, case, want, eq, False, "after-use/")
+
+
+def _check_copies(acc, pendulum, label, x, case, want, eq, depth2, stage):
     for rname, fn in ROUTES:
         acc.c["evaluations"] += 1
         acc.c["transitions"] += 1
@@ -81,10 +130,10 @@ def check_value(acc, pendulum, label, x, case, eq=True, depth2=False):
             if depth2:
                 y = fn(y)
         except Exception as e:  # noqa: BLE001
-            acc.mismatch(f"{label}", f"{'pickle' if rname.startswith('pickle') else rname}/raises-{type(e).__name__}",
+            acc.mismatch(f"{label}", f"{stage}{'pickle' if rname.startswith('pickle') else rname}/raises-{type(e).__name__}",
                          dict(case, route=rname), f"{type(e).__name__}: {str(e)[:80]}", "a copy")
             continue
-        rcls = "pickle" if rname.startswith("pickle") else rname
+        rcls = stage + ("pickle" if rname.startswith("pickle") else rname)
         if type(y) is not type(x):
             acc.mismatch(label, f"{rcls}/type", dict(case, route=rname), type(y).__name__, type(x).__name__)
             continue
